@@ -4,7 +4,9 @@ stdin: {"scenarios": [scenario, ...]}; stdout: {"results": [sparse observation l
 
 A scenario is {"tpb": int, "U": units per beat, "config": {...}, "callbacks": [{"raise": "none|exc|stop", "ops": [...]}],
 "ops": [...]}.  All times are integers in units (1/U beat); they are converted to the correctly rounded float
-of units/U, i.e. what a user typing the decimal/fraction would pass.  Observation of every operation: device
+of units/U, i.e. what a user typing the decimal/fraction would pass.  Optional "floats": {"<position in ops>": {"q": hex, "d": hex}}
+gives the quantize / delay argument of that top-level schedule or update as the double itself (float.hex), for callers that
+write a time as a float expression (a product or a sum) whose value is not the correctly rounded one.  Observation of every operation: device
 calls made (recording OutputDevice), result (ok / stop = StopIteration / exc / limit / notfound), ids of the
 tracks in Timeline.tracks in order.  Only operations with a non-empty observation are listed, with their index.
 """
@@ -80,6 +82,7 @@ class Driver:
         if lat:
             self.dev.added_latency_seconds = self.beats(lat) * 60.0 / cfg.get("tempo", 120)
         self.created = []
+        self.floats = sc.get("floats") or {}
         self.cb_fns = [self.make_cb(i, cb) for i, cb in enumerate(sc.get("callbacks", []))]
 
     def beats(self, units):
@@ -161,13 +164,22 @@ class Driver:
     def track(self, t):
         return self.created[t] if 0 <= t < len(self.created) else None
 
-    def exec_op(self, o, inside=False):
+    def qd_floats(self, q, d, pos):
+        ov = self.floats.get(str(pos)) if pos is not None else None
+        q, d = self.opt_beats(q), self.opt_beats(d)
+        if ov:
+            if "q" in ov: q = float.fromhex(ov["q"])
+            if "d" in ov: d = float.fromhex(ov["d"])
+        return q, d
+
+    def exec_op(self, o, inside=False, pos=None):
         kind = o[0]
         tl = self.tl
         if kind == "schedule":
             _, s, q, d, count, rwd, name, replace = o
+            q, d = self.qd_floats(q, d, pos)
             try:
-                tr = tl.schedule(self.stream(s), quantize=self.opt_beats(q), delay=self.opt_beats(d), count=count,
+                tr = tl.schedule(self.stream(s), quantize=q, delay=d, count=count,
                                  remove_when_done=rwd, name=None if name is None else "n%d" % name, replace=replace)
             except TrackLimitReachedException:
                 if inside:
@@ -179,8 +191,9 @@ class Driver:
         if kind == "update":
             _, t, s, q, d, count = o
             tr = self.track(t)
+            q, d = self.qd_floats(q, d, pos)
             if tr is not None:
-                tr.update(self.stream(s), quantize=self.opt_beats(q), delay=self.opt_beats(d), count=count)
+                tr.update(self.stream(s), quantize=q, delay=d, count=count)
             return "ok"
         if kind == "unschedule":
             tr = self.track(o[1])
@@ -226,7 +239,7 @@ class Driver:
     def run(self):
         sparse, prev, idx = [], [], 0
         times_ok = True
-        for o in self.sc["ops"]:
+        for pos, o in enumerate(self.sc["ops"]):
             reps = o[1] if o[0] == "tick" else 1
             for _ in range(reps):
                 self.dev.calls = []
@@ -238,7 +251,7 @@ class Driver:
                     except Exception:
                         res = "exc"
                 else:
-                    res = self.exec_op(o)
+                    res = self.exec_op(o, pos=pos)
                 ids = self.ids()
                 if self.dev.calls or res != "ok" or ids != prev:
                     sparse.append([idx, self.dev.calls, res, ids])
